@@ -144,6 +144,7 @@ def nowords_lines(x):
 
 # ----------------------------------------------------------------------------- error kinds (harness side only)
 KIND_TABLE = [
+    (r"(?s)^Error interpreting .* as a path: ", "PathRefused"),
     (r"One True or False value expected", "NotBool"),
     (r"as a numeric expression", "NotNumeric"),
     (r"as an integer expression", "NotInteger"),
@@ -226,6 +227,8 @@ class Oracles:
         self.ev = {}
         self.ex = {}
         self.path = self
+        # another stream of the same check (C16: c10's recorder) may already stand in for eval: chain to it
+        self.prev_eval = converters.__dict__.get("eval", builtins.eval)
         converters.eval = self.eval
         converters.os = self
 
@@ -235,7 +238,7 @@ class Oracles:
 
     def eval(self, src, g=None, l=None):
         try:
-            r = builtins.eval(src, g, l)
+            r = self.prev_eval(src, g, l)
         except vlib.Timeout:
             raise
         except Exception:
@@ -252,12 +255,18 @@ class Oracles:
         return r
 
     def expanduser(self, p):
-        r = os.path.expanduser(p)
+        try:
+            r = os.path.expanduser(p)
+        except ValueError:
+            self.ex[p] = None                 # refused (e.g. a NUL byte after the tilde): the model is told so
+            raise
         self.ex[p] = r
         return r
 
     def tables(self):
-        return [[[k, v] for k, v in self.ev.items()], [[k, v] for k, v in self.ex.items()]]
+        # expanduser table: [text, expanded] | [text] (= os.path.expanduser raised ValueError)
+        return [[[k, v] for k, v in self.ev.items()],
+                [[k] if v is None else [k, v] for k, v in self.ex.items()]]
 
 
 _ORACLES = {}
@@ -466,6 +475,14 @@ class ConvRoundTrip(Stream):
         return [
             # witnesses of recorded defects (in the property's domain only while listed open in known_findings.json)
             ["path", None, ["str", "~/x"], "witness:path-tilde"],
+            # repaired in 65aa99d: a text os.path.expanduser refuses (NUL byte after the tilde) is a RuntimeError on
+            # extraction (the model: oracle answer "refused" -> UErr PathRefused); str / key take the text as it is
+            ["path", None, ["str", "~a\x00b"], "any"],
+            ["path", None, ["str", "~\x00"], "any"],
+            ["path", None, ["str", "a\x00~b"], "dom"],
+            ["str", None, ["str", "~a\x00b"], "dom"],
+            ["key", None, ["str", "~a\x00b"], "dom"],
+            ["strings", None, ["list", [["str", "~a\x00b"], ["str", "\x00"]]], "dom"],
             ["intsna", None, ["list", [["none"]]], "witness:single-none-element"],
             ["ints", None, ["list", []], "witness:empty-list-text"],
             ["strings", None, ["list", [["str", "x\ny"], ["str", "z"]]], "witness:multiline-before-more"],
@@ -1082,6 +1099,11 @@ class ScopeRoundTrip(Stream):
             {"m": [s("s", [d("a", "int")]), s("t", [s("s", [d("b", "str")]), s("s", [d("__x", "int")])], mult=True),
                    s("s", [d("__x", "int"), d("x__", "key")])], "src": "s.__x = 5\nt { s.__x = 7 }\n", "mut": [[["s", "__x"], ["int", "9"]]],
              "kind": "split"},
+            # repaired in ceef076: a disabled .multiple object after an active non-multiple namesake holding None leaves it None
+            {"m": [d("c", "path", dflt="None"), d("c", "none", mult=True, dis=True, dflt="x")], "src": "", "mut": [], "kind": "regress",
+             "direct": True, "expect": ["scope", "", [["c", ["none"]]]]},
+            {"m": [s("s", [d("c", "path", dflt="None"), d("c", "strings", mult=True, dis=True, dflt="Auto")], mult=True, opt=True)],
+             "src": "s { c = /a/b }\ns { }\n", "mut": [], "kind": "regress"},
             # repaired in 3d13dfd (formerly C16-join-disabled): the placeholder of a disabled object in a LATER block of a scope
             # leaves the scope / the .multiple list of the earlier block alone
             {"m": [s("s", [s("t", [d("a", "none", dflt="1")])]), s("s", [s("t", [d("b", "none", dflt="2")], dis=True)])],
@@ -1126,16 +1148,20 @@ class ScopeRoundTrip(Stream):
             for el in path[:-1]:
                 nxt = []
                 for t in targets:
+                    # ill-formed ("loose") masters may hold something else under the name than the node says: skipped
                     if el == "*":
-                        nxt.extend(list(t))
-                    else:
+                        if isinstance(t, list):
+                            nxt.extend(x for x in t if isinstance(x, self.cd.SE))
+                    elif isinstance(t, self.cd.SE):
                         x = getattr(t, el, None)
                         if x is not None:
                             nxt.append(x)
                 targets = nxt
             last = path[-1]
             for t in targets:
-                if not hasattr(t, last):
+                if not isinstance(t, self.cd.SE) or not hasattr(t, last):
+                    continue
+                if vs[0] in ("mlist", "mdel", "mdup") and not isinstance(getattr(t, last), list):
                     continue
                 if vs[0] == "mlist":
                     lst = getattr(t, last)
@@ -1151,6 +1177,18 @@ class ScopeRoundTrip(Stream):
                         lst.append(copy.deepcopy(lst[vs[1]]))
                 else:
                     setattr(t, last, self.cd.from_json(vs))
+
+    @staticmethod
+    def auto_choice(sc):
+        """a choice definition whose value is Auto has lost its alternatives: such a fetch result is not a complete master"""
+        for o in sc.objects:
+            if o.is_scope:
+                if ScopeRoundTrip.auto_choice(o):
+                    return True
+            elif getattr(o.type, "phil_type", None) == "choice" and len(o.words) == 1 and o.words[0].quote_token is None \
+                    and o.words[0].value.lower() == "auto":
+                return True
+        return False
 
     def run(self, f, conv):
         try:
@@ -1208,6 +1246,9 @@ class ScopeRoundTrip(Stream):
                 side["o3"] = self.orc.tables()
                 # text route (oracle only)
                 obs["t"] = self.run(lambda: m.fetch(source=self.fp.parse(f.as_str())).extract(), dump)
+                # the "working = master.fetch(...)" idiom (oracle only): the fetch RESULT used as the master of format
+                if not case.get("direct") and not self.auto_choice(w):
+                    obs["qw"] = self.run(lambda: w.format(p).extract(), dump)
         self.side[key] = side
         return obs
 
@@ -1252,6 +1293,8 @@ class ScopeRoundTrip(Stream):
             else:
                 out["c"] = o.get("c")
             out["t"] = o.get("t")
+            if "qw" in o:
+                out["qw"] = o.get("qw")
         return out
 
     # -- the property on the implementation
@@ -1270,6 +1313,9 @@ class ScopeRoundTrip(Stream):
         want = o["p2"]
         if o["q"][0] != "ok" or o["q"][1] != want:
             return pre + "format+extract returned %r, expected %r" % (o["q"], want)
+        # (a refusal is not judged: a fetch result whose choice is Auto / None-ed out is no longer a complete master)
+        if "qw" in o and not wit and o["qw"][0] == "ok" and o["qw"][1] != want:
+            return pre + "working.format(p).extract() (working = master.fetch(source)) returned %r, expected %r" % (o["qw"], want)
         tkind = text_kind(o["f"][1])
         if tkind and wit != tkind:
             return None                       # recorded defects of the printed form
